@@ -496,6 +496,8 @@ func (g *Grammar) Sample(r *rand.Rand, e *Expr, depth int, out *[]byte, maxLen i
 			*out = (*out)[:save]
 		}
 		return false
+	case OpSuppress, OpSingle:
+		return g.Sample(r, e.Kids[0], depth, out, maxLen)
 	case OpLTrim:
 		if r.Intn(2) == 0 {
 			*out = append(*out, " \n"[r.Intn(2)])
